@@ -156,11 +156,12 @@ PROPS = {
     ),
     "C07": dict(
         title="Validation observes, it does not destroy what was archived",
-        lean_modules=["Gowarc.Props.C07", "Gowarc.Props.C07parser"],
+        lean_modules=["Gowarc.Props.C07", "Gowarc.Props.C07parser", "Gowarc.Props.C07repairs"],
         audit_namespaces=["Gowarc.Props.C07"],
         n_quick=1500, n_thorough=20000,
-        required_theorems=["C07_validate_keeps_header", "C07_observe", "C07_policy_independent", "C07_block_complete", "C07_parser_policy_independent"],
-        model_assumptions=["see level_note"],
+        required_theorems=["C07_validate_keeps_header", "C07_observe", "C07_policy_independent", "C07_block_complete", "C07_parser_policy_independent",
+                           "C07_repairs_only", "C07_repairs_only_getAll", "validateDigest_others", "parseBlock_others", "others_set"],
+        model_assumptions=["C07_repairs_only: with ANY repair options and policies, the header of the record Unmarshal returns equals the parsed header on every field other than Content-Length, WARC-Block-Digest and WARC-Payload-Digest: same names, values, multiplicities and relative order (others r.hdr = others fs)", "see level_note"],
         design_ref="DESIGN.md section 5, C07",
         level_text="Kernel-checked: header validation never alters a field under any policy; the header parser returns the same fields and stops at the same byte under any two syntax policies that accept; with the repair options off a record returned under ANY policy setting carries exactly the parsed fields and exactly the block framed by Content-Length "
                    "(complete, never empty or shortened); protocol header ++ payload = content. Correspondence: every input parsed under all 81 policy combinations with repairs off, headers and drained blocks compared across policies on the implementation",
